@@ -3,6 +3,7 @@ CONSTANTS
   Threads = {1, 2, 3}
   L = 3
   Rounds = 2
-  Shared = TRUE
+  Mode = "shared"
+  Nesting = FALSE
 INVARIANTS ReadableDuringClose ClearedAfterClose
 CHECK_DEADLOCK FALSE
